@@ -504,6 +504,25 @@ func genConcPlan(r *rand.Rand, tier string) *vfPlan {
 		}
 		return p
 	}
+	if chance(r, 0.1) {
+		// federated logins in flight while others start or complete, and while the periodic sweeper runs
+		p.Cfg.Federated = true
+		p.NoPost = true
+		p.Steps = append(p.Steps, vfStep{Op: "fedlogin", Sess: "a1"}, vfStep{Op: "idp_auth", Sess: "a1", User: "alice"})
+		if chance(r, 0.5) {
+			p.Steps = append(p.Steps, vfStep{Op: "advance", D: pick(r, []string{"31s", "65s", "5m", "11m"})})
+		}
+		g := []vfStep{{Op: "fedcallback", Sess: "a1", Par: 1}, {Op: pick(r, []string{"fedlogin", "fedcallback"}), Sess: pick(r, []string{"a1", "a2"}), A: pick(r, []string{"", "replay", "code:a1"}), Par: 1}}
+		if chance(r, 0.4) {
+			g = append(g, vfStep{Op: "fedlogin", Sess: "b1", Par: 1})
+		}
+		p.Steps = append(p.Steps, g...)
+		p.Steps = append(p.Steps, vfStep{Op: "advance", D: pick(r, []string{"31s", "65s", "11m"})}, vfStep{Op: "fedlogin", Sess: "b1"}, vfStep{Op: "advance", D: "65s"})
+		for i := 0; i < 40; i++ {
+			p.Tape = append(p.Tape, r.IntN(6))
+		}
+		return p
+	}
 	okta := chance(r, 0.2)
 	if okta {
 		p.Cfg.PwBackend = "okta"
